@@ -203,7 +203,7 @@ pub fn unty(s: &SF<Ob>) -> Vec<u32> {
 
 pub fn op_compose(f: &Diagram, g: &Diagram) -> Result<Option<Diagram>, String> {
     let (sf_, sg) = (to_strict(f), to_strict(g));
-    match (&sf_ >> &sg) {
+    match &sf_ >> &sg {
         None => Ok(None),
         Some(h) => from_strict(&h).map(Some),
     }
